@@ -1319,8 +1319,9 @@ impl Stream {
                                 }
                             }
                         } else {
-                            *past_end_of_stream = true;
-                            AtEndOfStream::Past
+                            // a pipe or a FIFO has no position: whether its end
+                            // has been reached is known only by reading.
+                            AtEndOfStream::Not
                         }
                     }
                     _ => {
